@@ -2,6 +2,7 @@ import FimVerif.Proofs.Lemmas.C02Props
 import FimVerif.Proofs.Lemmas.C02Tree
 import FimVerif.Proofs.Lemmas.C02Check
 import FimVerif.Proofs.Lemmas.C02Graph
+import FimVerif.Proofs.Lemmas.C02At
 import FimVerif.Proofs.Lemmas.C02Routes
 /-!
 # C02 — sliver ↔ graph / dictionary / JSON conversion preserves every settable field
@@ -21,6 +22,11 @@ What is proved here, for *every* `Codecs V P` (value model) and every table pass
 * `image_join_split`, `image_type_comma_counterexample` – the `ImageRef` text format;
 * `graph_roundtrip_partial`, `graph_roundtrip_component_partial`, `graph_children_perm` – model-graph round trip
   (`add_*_sliver` then `build_deep_*_sliver`) for trees with children and distinct node ids, children up to order;
+* `graph_roundtrip_every_element_partial`, `graph_roundtrip_every_element_component_partial` – the same store read from
+  **every** element of the written tree (`build_deep_*_sliver` / `get_sliver()` started at a component, a service, an
+  interface, a sub-interface): each start gives that element's subtree; `graph_at_nested_dedicated_counterexample` –
+  why sub-interfaces must not themselves be `DedicatedPort`s (the neighbour query is undirected);
+* `handles_share_one_store` – histories through several handles of one element;
 * (in `Lemmas/C02Codec.lean`) `rowLaw_jsonfield` – the codec hypothesis discharged from `C03.lossless` for the seven
   JSONField classes, for every value model that carries C03's `encode`/`decode`.
 -/
@@ -453,6 +459,59 @@ theorem history_last_op_decides (C : Codecs V P) (T : KindTable) (hT : T ∈ tab
     simp only [stepOp] at hstep
     exact (unset_get_every_route C T hT E hE f hf hx hid route hop wn fresh q p' hstep).1
 
+/-! #### several handles of one element
+
+`topo.nodes['n1']`, `node.components['nic1']`, `port.interface_list[0]`, the object an `add_*` call returned: each is
+another python object for the same graph node.  The model (and the driver's `runOps`, which the correspondence runs
+against histories that alternate between three handles) gives a handle exactly one thing of its own, the name it
+caches; every property lives in the one store. -/
+
+/-- what an operation through handle `h` does to the cached names: only an assignment to the cached attribute, and
+only in the handle it went through -/
+def cacheStep (h : Nat) : PropOp V → (Nat → Option V) → (Nat → Option V)
+  | .set (.attr r) v, nm => if r.get == GetForm.cached then (fun i => if i = h then some v else nm i) else nm
+  | _, nm => nm
+
+/-- a history in which every operation names the handle it goes through -/
+def runHandles (C : Codecs V P) (T : KindTable) (E : ElemClass) (wn : String → V) (fresh : Fields V) (k : Key) :
+    List (Nat × PropOp V) → Props P × (Nat → Option V) → Except Err (Props P × (Nat → Option V))
+  | [], st => .ok st
+  | hop :: rest, st =>
+    match stepOp C T E wn fresh k st.1 hop.2 with
+    | .ok p' => runHandles C T E wn fresh k rest (p', cacheStep hop.1 hop.2 st.2)
+    | .error e => .error e
+
+/-- **Handles share one store**: a history spread over any number of handles leaves the node exactly as the same
+operations through a single handle do - which handle wrote is invisible to every reader -/
+theorem handles_share_one_store (C : Codecs V P) (T : KindTable) (E : ElemClass) (wn : String → V) (fresh : Fields V) (k : Key)
+    (hops : List (Nat × PropOp V)) (st st' : Props P × (Nat → Option V))
+    (h : runHandles C T E wn fresh k hops st = .ok st') :
+    runHistory C T E wn fresh k (hops.map (·.2)) st.1 = .ok st'.1 := by
+  induction hops generalizing st with
+  | nil => simp only [runHandles] at h; cases h; rfl
+  | cons hop rest ih =>
+    simp only [runHandles] at h
+    simp only [List.map_cons, runHistory]
+    cases hq : stepOp C T E wn fresh k st.1 hop.2 with
+    | error e => rw [hq] at h; cases h
+    | ok q =>
+      rw [hq] at h
+      exact ih (q, cacheStep hop.1 hop.2 st.2) h
+
+/-- ... so set→get and unset→get hold **across handles**: after any history over any handles, a read (through whichever
+handle: reads go to the store) returns the value of the last write, or absent after an unset, whoever made it -/
+theorem history_last_op_decides_any_handle (C : Codecs V P) (T : KindTable) (hT : T ∈ tables) (E : ElemClass)
+    (hE : E ∈ elemClasses) (f : FromRow) (hf : f ∈ T.fromRows) (hp : f.key ∉ pairKeys) (hx : f.key ∉ unsetExempt)
+    (hid : f.gprop ∉ noUnset) (wn : String → V) (fresh : Fields V) (hops : List (Nat × PropOp V)) (hop : Nat × PropOp V)
+    (hok : OpOK C T E f hop.2) (st st' : Props P × (Nat → Option V))
+    (h : runHandles C T E wn fresh f.key (hops ++ [hop]) st = .ok st') :
+    readRow C st'.1 f = .ok (match hop.2 with | .set _ v => some v | .unset _ => none) := by
+  obtain ⟨hn, op⟩ := hop
+  have h1 := handles_share_one_store C T E wn fresh f.key (hops ++ [(hn, op)]) st st' h
+  rw [List.map_append, List.map_cons, List.map_nil] at h1
+  have h2 := history_last_op_decides C T hT E hE f hf hp hx hid wn fresh (hops.map (·.2)) op hok st.1 st'.1 h1
+  cases op <;> exact h2
+
 end
 
 /-- non-vacuity: `site` of a node set to "A", overwritten by the empty string through the attribute, unset through
@@ -472,6 +531,12 @@ example : ∀ op ∈ siteHistory, OpOK concrete nodeTable elemNode siteFrom op :
   rcases hop with rfl | rfl | rfl | rfl | rfl <;> simp only [OpOK] <;> decide
 
 
+
+/-- non-vacuity of `history_last_op_decides_any_handle`: the same history with its operations alternating between
+three handles runs to its end -/
+example : (match runHandles concrete nodeTable elemNode (fun c => Val.jdata c "{}") freshFields "site"
+    ((List.range siteHistory.length).map (· % 3) |>.zip siteHistory) (Props.empty.set "Name" "n1", fun _ => some (.str "n1"))
+    with | .ok _ => true | .error _ => false) = true := by decide
 
 /-! non-vacuity of the route theorems: the `user_data` attribute of a `Node` (the JSON-blob setter), with a value
 that obeys the codec law, through the attribute route -/
@@ -661,7 +726,118 @@ theorem graph_roundtrip_component_partial (C : Codecs V P) (s : Sliver V) (hk : 
   rw [hk] at hbuild
   exact hbuild
 
+/--
+**The model graph read from every element** (`Interface.get_sliver()` on what `add_child_interface` returned,
+`build_deep_ns_sliver(<id of a component's service>)`, `build_deep_interface_sliver(<sub-interface id>)`, ...): a
+well-formed tree is written once; the reader started at *any* of its elements - every kind, every nesting position -
+returns that element's subtree (`gnorm` of it: same fields, children up to order), nothing of what lies above or beside
+it.  `get_first_neighbor` is undirected (`neighbors` on a two-way adjacency), so every inner element has its parent
+among its neighbours: below a node / component / service the class filter keeps it out (`parentOk_child`), below an
+interface only the `DedicatedPort` guard does (`build_plain`) - hence `SubsPlain`: the children of an interface are not
+themselves `DedicatedPort`s (`add_child_interface` makes `SubInterface`s); `graph_at_nested_dedicated_counterexample`
+shows the hypothesis is needed.  `_partial` as `graph_roundtrip_partial` (the `FateShared` conjunct of `WF`).
+-/
+theorem graph_roundtrip_every_element_partial (C : Codecs V P) (s : Sliver V) (hk : s.kind ≠ "component") (hs : Shaped s)
+    (hw : WF C s) (hnd : (idsOf s).Nodup) (hp : SubsPlain C (elems none s)) :
+    graphAt (P := P) C s = .ok ((elems none s).map fun e => (e.2, .ok (gnorm C e.2))) := by
+  obtain ⟨g', hadd, hb, _⟩ := add_built C s (AGraph.empty : AGraph P) none hs
+    (fun i _ => ⟨rfl, rfl⟩) hnd (fun q hq => by cases hq) (fun q hq => by cases hq)
+  have hall := at_elems C g' s none hb hs hw (fun q pk h => by cases h) hp
+  unfold graphAt graphWrite
+  simp only [hk, if_false, hadd]
+  congr 1
+  apply List.map_congr_left
+  intro e he
+  have := hall e he
+  unfold idOf at this
+  rw [this]
+
+/-- the same for a component, which hangs below an existing node (`c02-parent`) as `add_component_sliver` requires -/
+theorem graph_roundtrip_every_element_component_partial (C : Codecs V P) (s : Sliver V) (hk : s.kind = "component")
+    (hs : Shaped s) (hw : WF C s) (hnd : (idsOf s).Nodup) (hpid : "c02-parent" ∉ idsOf s)
+    (hp : SubsPlain C (elems none s)) :
+    graphAt (P := P) C s = .ok ((elems none s).map fun e => (e.2, .ok (gnorm C e.2))) := by
+  have hg0 : addNode (AGraph.empty : AGraph P) none "c02-parent" "NetworkNode" "has" Props.empty =
+      .ok (addNodeTo AGraph.empty none "c02-parent" "NetworkNode" "has" Props.empty) := rfl
+  generalize hgen : addNodeTo (AGraph.empty : AGraph P) none "c02-parent" "NetworkNode" "has" Props.empty = g0 at hg0
+  have hfresh : Fresh g0 (idsOf s) := by
+    intro i hi
+    have : i ≠ "c02-parent" := fun e => hpid (e ▸ hi)
+    subst hgen
+    simp [addNodeTo, AGraph.empty, upd, this]
+  obtain ⟨g', hadd, hb, hframe⟩ := add_built C s g0 (some "c02-parent") hs hfresh hnd (fun q hq => by cases hq; exact hpid)
+    (fun q hq => by cases hq; subst hgen; simp [addNodeTo, AGraph.empty, upd])
+  have hpn : g'.node "c02-parent" = [(classOf "node", Props.empty)] := by
+    rw [(hframe.2 "c02-parent" rfl).1]
+    subst hgen
+    simp [addNodeTo, AGraph.empty, upd, classOf]
+  have hpl : SubsPlain C (elems (some ("c02-parent", "node")) s) := by
+    cases s with
+    | mk k nid f ks =>
+      intro e he q hq
+      simp only [elems, List.mem_cons] at he
+      rcases he with rfl | he
+      · simp at hq
+      · exact hp e (by simp only [elems]; exact List.mem_cons_of_mem _ he) q hq
+  have hall := at_elems C g' s (some ("c02-parent", "node")) hb hs hw
+    (fun q pk h => by cases h; exact ⟨by rw [hk]; decide, Props.empty, hpn⟩) hpl
+  have hall' : ∀ e ∈ elems none s, buildDeep C g' 5 e.2.kind (idOf e.2) = .ok (gnorm C e.2) := by
+    intro e he
+    have hm : e.2 ∈ (elems (some ("c02-parent", "node")) s).map (·.2) := by
+      rw [elems_snd (some ("c02-parent", "node")) none s]
+      exact List.mem_map.mpr ⟨e, he, rfl⟩
+    obtain ⟨e', he', heq⟩ := List.mem_map.mp hm
+    rw [← heq]
+    exact hall e' he'
+  unfold graphAt graphWrite
+  simp only [hk, if_true, hg0, hadd]
+  congr 1
+  apply List.map_congr_left
+  intro e he
+  have := hall' e he
+  unfold idOf at this
+  rw [this]
+
 end
+
+/-- non-vacuity of `graph_roundtrip_every_element_partial`: a service with a `DedicatedPort` carrying two
+sub-interfaces (and a plain port beside it) satisfies every hypothesis; five starts, five subtrees -/
+def exSub (n vlan : String) : Sliver Val :=
+  .mk "interface" (some ("id-" ++ n))
+    (((freshFields.set "name" (some (.str n))).set "type" (some (.enum "InterfaceType" "SubInterface"))).set
+      "labels" (some (.obj "Labels" ("{\"vlan\": \"" ++ vlan ++ "\"}")))) []
+def exPort : Sliver Val :=
+  .mk "interface" (some "id-port")
+    ((freshFields.set "name" (some (.str "p0"))).set "type" (some (.enum "InterfaceType" "DedicatedPort")))
+    [exSub "p0.100" "100", exSub "p0.200" "200"]
+def exPortService : Sliver Val :=
+  .mk "service" (some "id-ovs")
+    ((freshFields.set "name" (some (.str "ovs1"))).set "type" (some (.enum "ServiceType" "OVS"))) [exPort, exIface "p1"]
+
+example : graphAt (P := String) concrete exPortService =
+    .ok ((elems none exPortService).map fun e => (e.2, .ok (gnorm concrete e.2))) :=
+  graph_roundtrip_every_element_partial concrete exPortService (by decide)
+    (by simp [Shaped, ShapedKids, exPortService, exPort, exSub, exIface, Sliver.kind, slotOf])
+    (wfB_sound concrete exPortService (by decide)) (by decide)
+    (by
+      intro e he q hq
+      simp [elems, elemsKids, exPortService, exPort, exSub, exIface] at he
+      rcases he with rfl | rfl | rfl | rfl | rfl <;> first | (simp at hq; done) | (unfold NotDed; decide))
+example : ((elems none exPortService).map (·.2.nodeId)) =
+    [some "id-ovs", some "id-port", some "id-p0.100", some "id-p0.200", some "id-p1"] := by decide
+
+/-- `SubsPlain` is needed: a `DedicatedPort` below a `DedicatedPort`, read from the inner one, comes back with its
+own parent as a child (the undirected neighbour query; the guard lets a `DedicatedPort` look) -/
+def exNested : Sliver Val :=
+  .mk "interface" (some "id-outer")
+    ((freshFields.set "name" (some (.str "outer"))).set "type" (some (.enum "InterfaceType" "DedicatedPort")))
+    [.mk "interface" (some "id-inner")
+      ((freshFields.set "name" (some (.str "inner"))).set "type" (some (.enum "InterfaceType" "DedicatedPort"))) []]
+
+theorem graph_at_nested_dedicated_counterexample :
+    (match graphWrite (P := String) concrete exNested with
+     | .ok g => (buildDeep concrete g 5 "interface" "id-inner").toOption.map (fun r => r.kids.map (·.nodeId))
+     | .error _ => none) = some [some "id-outer"] := by decide
 
 /-- non-vacuity of `graph_roundtrip_partial`: the four-level example tree satisfies every hypothesis -/
 example : graphRoundtrip (P := String) concrete exNode = .ok (gnorm concrete exNode) :=
